@@ -87,10 +87,13 @@ class C04(Check):
         return out
 
     # ------------------------------------------------------------------
-    def check_file(self, records, eol, fnl, desc, buffers, ctx):
+    def check_file(self, records, eol, fnl, desc, buffers, ctx, blank=False):
         """records: list of (name, seq, width)"""
         eolb = b"\r\n" if eol == "CRLF" else b"\n"
-        data, exp = fm.make_fasta(records, eolb, fnl, desc.encode() if isinstance(desc, str) else desc)
+        data, exp = fm.make_fasta(records, eolb, fnl, desc.encode() if isinstance(desc, str) else desc, blank_between=blank)
+        if len(records) > 1 and blank is False:
+            # the same file with an empty line between the records
+            self.check_file(records, eol, fnl, desc, buffers, ctx, blank=True)
         seqs = {n: s for n, s, _ in records}
         tag = "" if fnl else "/no-final-newline"
         nontriv = (
@@ -101,7 +104,7 @@ class C04(Check):
         )
         first = True
         for buf in buffers:
-            case = [[[n, s.decode(), w] for n, s, w in records], eol, fnl, desc, buf]
+            case = [[[n, s.decode(), w] for n, s, w in records], eol, fnl, desc, buf, blank]
             ctx.cur = case
             ctx.evaluations += 1
             if nontriv:
@@ -291,8 +294,9 @@ class C04(Check):
             klass = "duplicate-not-rejected" if case[0] == "reject-dup" else "recordless-not-rejected"
             self.reject_one(case[1].encode(), case[2], case, klass, ctx)
         else:
-            recs, eol, fnl, desc, buf = case
-            self.check_file([(n, s.encode(), w) for n, s, w in recs], eol, fnl, desc, [buf], ctx)
+            recs, eol, fnl, desc, buf = case[:5]
+            blank = case[5] if len(case) > 5 else False
+            self.check_file([(n, s.encode(), w) for n, s, w in recs], eol, fnl, desc, [buf], ctx, blank=bool(blank) or None)
 
 
 CHECK = C04()
